@@ -4,9 +4,11 @@
  * Op file (objects are named by small integers; an id is bound once):
  *   D <hex>                              hash_data over the bytes
  *   new <id> <S|H|E> <spec>              scalar object on the stack / on the heap (new) / embedded in an Array
- *   arr|lst <id> <S|H> <I|F|S> <spec>*   Array / List with the constructor arguments
+ *   arr|lst <id> <S|H> <ety> <spec>*     Array / List with the constructor arguments; ety: I | F | S | <k> (plain struct P<k>)
  *   tup <id> <S|H> <objid>*              Tuple of existing scalar objects
- *   tab|tre <id> <S|H> <kty> <vty> (<kspec> <vspec>)*     Table / Tree with constructor arguments
+ *   tab|tre <id> <S|H> <kty> <vty> (<kspec> <vspec>)*     Table / Tree with constructor arguments; kty: I | S | <k>, vty: I | F | S | <k>
+ *                                        (key, value and element types of any size, in any combination; a Tree takes plain structs
+ *                                        whose size is a multiple of 8 only: KF-C19-tree-misaligned-header)
  *   put <id> <spec>                      assign(obj, temporary of spec)             (scalars)
  *   push <c> <spec|objid> | pushat <c> <idx> <spec|objid> | pop <c> | popat <c> <idx> | rem <c> <spec>
  *   set <c> <idx|kspec> <spec> | resize <c> <n> | concat <c> <d> | clear <c>
@@ -14,6 +16,8 @@
  *   eq <a> <b>                           cmp(a,b) (sign) and both hashes
  *   heq <a> <b>                          both hashes only (no comparison)
  *   copy <newid> <a> | assign <y> <x> | swap <a> <b>
+ *   hcopy <newid> <a> | hassign <y> <x>  copy / assign observed through content and hashes only (no cmp: for Tables of any layout,
+ *                                        whose cmp is order-of-slots dependent — KF-C10-table-cmp)
  * spec: i:<dec> | f:<16 hex: bits> | s:<hex bytes, no 00> | t:<builtin type name> | u:<name: run-time Type of that name> |
  *       p<k>:<hex, exactly PSIZE[k] bytes> | r:<objid> | b:<objid>
  *
@@ -25,12 +29,13 @@
 #include <errno.h>
 
 /* ------------------------------------------------------------------ probe types: plain structs, no instances at all */
-#define NPROBE 6
-static const size_t PSIZE[NPROBE] = {1, 4, 8, 12, 16, 40};
+#define NPROBE 7
+static const size_t PSIZE[NPROBE] = {1, 4, 8, 12, 16, 40, 24};
 struct P0 { unsigned char b[1]; };  struct P1 { unsigned char b[4]; };  struct P2 { unsigned char b[8]; };
 struct P3 { unsigned char b[12]; }; struct P4 { unsigned char b[16]; }; struct P5 { unsigned char b[40]; };
-static var P0, P1, P2, P3, P4, P5;
-static var probe_type(int k) { switch (k) { case 0: return P0; case 1: return P1; case 2: return P2; case 3: return P3; case 4: return P4; default: return P5; } }
+struct P6 { unsigned char b[24]; };
+static var P0, P1, P2, P3, P4, P5, P6;
+static var probe_type(int k) { switch (k) { case 0: return P0; case 1: return P1; case 2: return P2; case 3: return P3; case 4: return P4; case 5: return P5; default: return P6; } }
 static int probe_index(var t) { for (int k = 0; k < NPROBE; k++) if (probe_type(k) == t) return k; return -1; }
 
 /* ------------------------------------------------------------------ independent MurmurHash64A (Austin Appleby's reference, transcribed) */
@@ -151,7 +156,9 @@ static char ty_code(var t) {
   if (t == Int) return 'I'; if (t == Float) return 'F'; if (t == String) return 'S'; if (t == Type) return 'T';
   if (t == Ref) return 'r'; if (t == Box) return 'b'; int k = probe_index(t); if (k >= 0) return (char)('0' + k); return '?';
 }
-static var ty_of_code(char c) { if (c == 'I') return Int; if (c == 'F') return Float; if (c == 'S') return String; return NULL; }
+static var ty_of_code(char c) { if (c == 'I') return Int; if (c == 'F') return Float; if (c == 'S') return String; if (c >= '0' && c < '0' + NPROBE) return probe_type(c - '0'); return NULL; }
+static size_t size_of_code(char c) { if (c >= '0' && c < '0' + NPROBE) return PSIZE[c - '0']; return 8; }
+static int tree_ty_ok(char c) { return size_of_code(c) % 8 == 0; }
 
 static void dump_scalar(SB* b, var p) {
   var t = type_of(p);
@@ -381,6 +388,15 @@ static char* toks[MAXTOK]; static int ntok;
 static void tokenize(char* l) { ntok = 0; char* p = l; while (*p && ntok < MAXTOK) { while (*p == ' ') p++; if (!*p) break; toks[ntok++] = p; while (*p && *p != ' ') p++; if (*p) *p++ = 0; } }
 
 static size_t n_eq_pairs = 0, n_equal_by_construction = 0, n_copy = 0, n_swap = 0, n_hashdata = 0;
+/* coverage of element moves (white box): Tree removals of a node with two children (the in-order neighbour's payload is copied
+ * over the node), of which with a value wider than the key / a key wider than the value; Table removals that shift a
+ * neighbouring slot back or rehash, and Array removals / insertions that shift elements, on entries wider than one word each */
+static size_t n_tree_reloc = 0, n_tree_reloc_vwide = 0, n_tree_reloc_kwide = 0, n_table_shift_wide = 0, n_array_shift_wide = 0;
+static int tree_two_children(var p, var key) {
+  struct Tree* m = p; var node = m->root; var exc = NULL; int c = 0;
+  while (node) { V_TRY(exc, c = cmp(Tree_Key(m, node), key)); if (exc) return 0; if (c == 0) break; node = c < 0 ? *Tree_Left(m, node) : *Tree_Right(m, node); }
+  return node && *Tree_Left(m, node) && *Tree_Right(m, node);
+}
 
 static void do_hash_data(void) {
   unsigned char* b; size_t n;
@@ -410,7 +426,7 @@ int main(int argc, char** argv) {
   v_init();
   if (argc < 2) { fprintf(stderr, "usage: h_hash <opfile>\n"); return 2; }
   char arena_mem[1 << 22]; arena = arena_mem; arena_left = sizeof arena_mem;
-  P0 = Cello(P0); P1 = Cello(P1); P2 = Cello(P2); P3 = Cello(P3); P4 = Cello(P4); P5 = Cello(P5);
+  P0 = Cello(P0); P1 = Cello(P1); P2 = Cello(P2); P3 = Cello(P3); P4 = Cello(P4); P5 = Cello(P5); P6 = Cello(P6);
   stop(current(GC));   /* objects are kept alive by the harness table, which the collector cannot see */
   size_t nl; char** lines = v_read_lines(argv[1], &nl);
   for (size_t li = 0; li < nl; li++) {
@@ -467,7 +483,8 @@ int main(int argc, char** argv) {
     else if (strcmp(op, "tab") == 0 || strcmp(op, "tre") == 0) {
       int id; int istab = op[1] == 'a';
       if (ntok < 5 || (ntok - 5) % 2 || !parse_id(toks[1], &id) || objs[id].used || strlen(toks[2]) != 1 || !strchr("SH", toks[2][0])
-          || strlen(toks[3]) != 1 || strlen(toks[4]) != 1 || !strchr("IS", toks[3][0]) || !ty_of_code(toks[4][0])) { O("bad-op"); goto next; }
+          || strlen(toks[3]) != 1 || strlen(toks[4]) != 1 || toks[3][0] == 'F' || !ty_of_code(toks[3][0]) || !ty_of_code(toks[4][0])) { O("bad-op"); goto next; }
+      if (!istab && !(tree_ty_ok(toks[3][0]) && tree_ty_ok(toks[4][0]))) { O("bad-op"); goto next; }
       int n = (ntok - 5) / 2; SV* ks = calloc(n + 1, sizeof(SV)); SV* vs = calloc(n + 1, sizeof(SV)); int ok = 1;
       for (int i = 0; i < n; i++) { if (!parse_spec(toks[5 + 2*i], &ks[i]) || sv_ty(&ks[i]) != toks[3][0]) ok = 0; if (!parse_spec(toks[6 + 2*i], &vs[i]) || sv_ty(&vs[i]) != toks[4][0]) ok = 0; }
       if (!ok) { O("bad-op"); goto next; }
@@ -494,6 +511,7 @@ int main(int argc, char** argv) {
       Shadow* s = &objs[c].sh;
       if (s->kind == 'U') for (size_t i = 0; i < s->n; i++) if (s->ids[i] == eid) { O("bad-op"); goto next; }
       if (at) V_TRY(exc, push_at(objs[c].p, val, $I(idx))); else V_TRY(exc, push(objs[c].p, val));
+      if (!exc && at && s->kind == 'A' && size_of_code(s->ety) > 8) n_array_shift_wide++;
       if (!exc) { size_t pos = at ? (size_t)idx : s->n; if (at && idx < 0) pos = (size_t)((int64_t)s->n + (s->kind == 'A' ? 1 : 0) + idx);
         if (pos > s->n) pos = s->n; sh_reserve(s, s->n + 1);
         memmove(&s->items[pos + 1], &s->items[pos], (s->n - pos) * sizeof(SV)); memmove(&s->ids[pos + 1], &s->ids[pos], (s->n - pos) * sizeof(int));
@@ -505,6 +523,7 @@ int main(int argc, char** argv) {
       if (ntok != (at ? 3 : 2) || !parse_id(toks[1], &c) || !is_live(c) || !is_seq(objs[c].sh.kind) || (at && !parse_i64(toks[2], &idx))) { O("bad-op"); goto next; }
       Shadow* s = &objs[c].sh;
       if (at) V_TRY(exc, pop_at(objs[c].p, $I(idx))); else V_TRY(exc, pop(objs[c].p));
+      if (!exc && at && s->kind == 'A' && size_of_code(s->ety) > 8) n_array_shift_wide++;
       if (!exc && s->n) { size_t pos = at ? (size_t)(idx < 0 ? (int64_t)s->n + idx : idx) : s->n - 1; if (pos >= s->n) pos = s->n - 1;
         memmove(&s->items[pos], &s->items[pos + 1], (s->n - pos - 1) * sizeof(SV)); memmove(&s->ids[pos], &s->ids[pos + 1], (s->n - pos - 1) * sizeof(int)); s->n--; }
       observe(op, c, exc);
@@ -515,8 +534,15 @@ int main(int argc, char** argv) {
       Shadow* s = &objs[c].sh;
       if (is_map(s->kind) ? sv_ty(&sv) != s->kty : (s->kind != 'U' && sv_ty(&sv) != s->ety)) { O("bad-op"); goto next; }
       if (s->kind == 'U') for (size_t i = 0; i < s->n; i++) { const SV* x = sh_item(s, i); if (!x || sv_ty(x) != sv_ty(&sv)) { O("bad-op"); goto next; } }
+      int two = 0; size_t nslots0 = 0; int shifts = 0;
+      if (s->kind == 'R') two = tree_two_children(objs[c].p, temp_of(&sv));
+      if (s->kind == 'T') { struct Table* tb = objs[c].p; nslots0 = tb->nslots;
+        for (size_t i = 0; i < tb->nslots; i++) { uint64_t h = Table_Key_Hash(tb, i); if (h && Table_Probe(tb, i, h) > 0) shifts = 1; } }
       V_TRY(exc, rem(objs[c].p, temp_of(&sv)));
       if (!exc) {
+        if (two) { n_tree_reloc++; if (size_of_code(s->vty) > size_of_code(s->kty)) n_tree_reloc_vwide++; if (size_of_code(s->kty) > size_of_code(s->vty)) n_tree_reloc_kwide++; }
+        if (s->kind == 'T' && size_of_code(s->kty) + size_of_code(s->vty) > 16 && (shifts || ((struct Table*)objs[c].p)->nslots != nslots0)) n_table_shift_wide++;
+        if (s->kind == 'A' && size_of_code(s->ety) > 8) n_array_shift_wide++;
         if (is_map(s->kind)) { size_t i = sh_map_find(s, &sv); if (i != (size_t)-1) { s->items[i] = s->items[s->n - 1]; s->vals[i] = s->vals[s->n - 1]; s->n--; } }
         else for (size_t i = 0; i < s->n; i++) { const SV* x = sh_item(s, i); if (x && sv_equal(x, &sv)) {
           memmove(&s->items[i], &s->items[i + 1], (s->n - i - 1) * sizeof(SV)); memmove(&s->ids[i], &s->ids[i + 1], (s->n - i - 1) * sizeof(int)); s->n--; break; } }
@@ -591,15 +617,15 @@ int main(int argc, char** argv) {
       n_eq_pairs++; if (se) n_equal_by_construction++;
       if (se && (!oka || !okb || va != vb)) X("sig=c10-hash-by-construction line=%zu what=objects %d and %d hold equal contents by construction but hash to %016" PRIx64 " and %016" PRIx64, cur_line, a, b, va, vb);
     }
-    else if (strcmp(op, "copy") == 0 || strcmp(op, "assign") == 0) {
-      int y, x; int iscopy = op[0] == 'c';
+    else if (strcmp(op, "copy") == 0 || strcmp(op, "assign") == 0 || strcmp(op, "hcopy") == 0 || strcmp(op, "hassign") == 0) {
+      int y, x; int nocmp = op[0] == 'h'; int iscopy = op[nocmp] == 'c';
       if (ntok != 3 || !parse_id(toks[1], &y) || !parse_id(toks[2], &x) || !is_live(x) || x == y) { O("bad-op"); goto next; }
       if (iscopy ? objs[y].used : (!is_live(y) || !assign_allowed(&objs[y].sh, &objs[x].sh))) { O("bad-op"); goto next; }
       var px = objs[x].p; var py = NULL;
       if (iscopy) { V_TRY(exc, py = copy(px)); }
       else { py = objs[y].p; V_TRY(exc, assign(py, px)); }
       if (iscopy) {
-        if (exc) { O("copy %d %d %s", y, x, v_exc_name(exc)); goto next; }
+        if (exc) { O("%s %d %d %s", op, y, x, v_exc_name(exc)); goto next; }
         Obj* o = &objs[y]; o->p = py; o->used = 1; o->cls = 'H'; memset(&o->sh, 0, sizeof o->sh); o->sh.kind = objs[x].sh.kind; o->sh.sv = objs[x].sh.sv;
         o->sh.ety = objs[x].sh.ety; o->sh.kty = objs[x].sh.kty; o->sh.vty = objs[x].sh.vty;
         if (header(py)->alloc != (var)AllocHeap) X("sig=c10-copy-class line=%zu what=copy did not return a heap object", cur_line);
@@ -610,7 +636,7 @@ int main(int argc, char** argv) {
       SB d; sb_init(&d); dump_value(&d, objs[y].p, 1); char hy[40], hx[40];
       hash_str(hy, sizeof hy, objs[y].p, &objs[y].sh); uint64_t vy = H_val; int oky = H_exc == NULL;
       hash_str(hx, sizeof hx, px, &objs[x].sh); uint64_t vx = H_val; int okx = H_exc == NULL;
-      int c = 0; var exc2 = NULL; int cmpok = cmp_allowed(&objs[y].sh, &objs[x].sh);
+      int c = 0; var exc2 = NULL; int cmpok = !nocmp && cmp_allowed(&objs[y].sh, &objs[x].sh);
       if (cmpok) V_TRY(exc2, c = cmp(objs[y].p, px));
       char cs[24]; if (!cmpok) snprintf(cs, sizeof cs, "-"); else if (exc2) snprintf(cs, sizeof cs, "%s", v_exc_name(exc2)); else if (shadow_has_ptr(&objs[x].sh)) snprintf(cs, sizeof cs, "%s", c == 0 ? "0" : "ne"); else snprintf(cs, sizeof cs, "%d", sign(c));
       O("%s %d %d %s v=%s h=%s hx=%s c=%s", op, y, x, exc ? v_exc_name(exc) : "ok", d.s, hy, hx, cs); free(d.s);
@@ -649,6 +675,8 @@ int main(int argc, char** argv) {
     free(l);
   }
   I("eq_pairs=%zu equal_by_construction=%zu copies=%zu swaps=%zu hash_data=%zu", n_eq_pairs, n_equal_by_construction, n_copy, n_swap, n_hashdata);
+  I("tree_two_child_rems=%zu tree_two_child_rems_value_wider=%zu tree_two_child_rems_key_wider=%zu table_shifting_rems_wide=%zu array_shifts_wide=%zu",
+    n_tree_reloc, n_tree_reloc_vwide, n_tree_reloc_kwide, n_table_shift_wide, n_array_shift_wide);
   fflush(stdout);
   _exit(0);   /* objects are leaked on purpose (shared elements, Boxes sharing a target): no teardown */
 }
